@@ -120,6 +120,13 @@ func (r *DocumentHandler) ProcessOperation(operationBuffer []byte) (*document.Re
 		return nil, fmt.Errorf("%s: %s", badRequest, err.Error())
 	}
 
+	// resolution validates the initial state, so the request has to be acceptable in that form too
+	// (its length can differ from the length of the bytes received)
+	op, err = pv.OperationParser().Parse(r.namespace, jcsBytes)
+	if err != nil {
+		return nil, fmt.Errorf("%s: %s", badRequest, err.Error())
+	}
+
 	requestJCS := encoder.EncodeToString(jcsBytes)
 
 	ti := docutil.GetTransformationInfoForUnpublished(r.namespace, "", "", op.UniqueSuffix, requestJCS)
